@@ -62,6 +62,7 @@ pub fn suite(name: &str, thorough: bool) -> Suite {
     match name {
         "main" | "C04" | "C17" => {
             if name == "C04" {
+                s.extra_units = [(3usize, 5usize), (6, 8), (7, 8)].iter().map(|(a, b)| (KindId::RangeX, a * 16 + b)).collect();
                 s.alphabet = alphabet(&["N", "I", "C2:a", "C3:1", "C1:0", "HC2", "HN1", "HD", "BN2", "BXa", "BX1", "BD", "S", "EF2", "V", "W", "FE1", "FO2", "CMx:1"]);
                 s.depth = if thorough { 5 } else { 4 };
             }
@@ -82,7 +83,9 @@ pub fn suite(name: &str, thorough: bool) -> Suite {
             s.terms = vec![Term::Drop, Term::Seq(ALL)];
         }
         "C05" => {
-            s.alphabet = alphabet(&["N", "I", "C2:a", "C3:1", "CL1:0", "BN2", "BXa", "BX1", "BD", "EF2", "FE1", "V", "FO3", "L", "S"]);
+            s.alphabet = alphabet(&["N", "I", "C2:a", "C3:1", "CL1:0", "BN2", "BXa", "BX1", "BD", "EF2", "FE1", "V", "FO3", "L", "S", "CHh:1"]);
+            // short ranges near the top of usize (cumulative requests stay below usize::MAX with one chunk of usize::MAX/2)
+            s.extra_units = [(3usize, 5usize), (6, 8), (4, 5), (7, 8)].iter().map(|(a, b)| (KindId::RangeX, a * 16 + b)).collect();
             s.terms = vec![Term::Drop, Term::Seq(ALL)];
         }
         "C06" => {
